@@ -113,6 +113,12 @@ def build(formula, df, **ns):
 
 def newframes(df):
     out = []
+    # more than a thousand rows: every row 150 times; and large frames in which one value of a column never occurs
+    out.append(("all rows x 150", df.iloc[list(range(len(df))) * 150].reset_index(drop=True)))
+    for col in ("f", "k", "tb", "o"):
+        for v in sorted(set(df[col].tolist()))[:2]:
+            rows = [i for i in range(len(df)) if df[col].iloc[i] != v]
+            out.append((f"rows without {col}={v!r} x 200", df.iloc[rows * 200].reset_index(drop=True)))
     for idx in c06.new_frames(_TIER):
         out.append((idx, df.iloc[idx].reset_index(drop=True)))
         if len(idx) <= 2:
